@@ -179,6 +179,41 @@ def run {P : Type} (dec : Dec P) (s : Option String) : List (Req Ã— Behaviour) â
     let t := run dec (sessionAfter s b) rest
     { outs := outcome dec r.id b ++ t.outs, hdrs := hdr s :: t.hdrs, session := t.session }
 
+/-! ## Closing the connection
+
+`__aexit__` cancels the sender task (the POST in flight is abandoned, queued messages are never
+taken), then closes the read stream's sending end: a reader gets what was routed so far and
+then end-of-stream.  Timeline model: POSTs that complete, and the moment of `close`. -/
+
+inductive Ev where
+  | post (r : Req) (b : Behaviour)   -- a message taken from the write stream whose POST completes
+  | close                            -- `__aexit__`
+  deriving Repr, DecidableEq
+
+structure CTrace (P : Type) where
+  outs : List (Out P)
+  hdrs : List (Option String)
+  closed : Bool                      -- the reader sees end-of-stream after `outs`
+
+def runEvents {P : Type} (dec : Dec P) (s : Option String) : List Ev â†’ CTrace P
+  | [] => { outs := [], hdrs := [], closed := false }
+  | .close :: _ => { outs := [], hdrs := [], closed := true }
+  | .post r b :: rest =>
+    let t := runEvents dec (sessionAfter s b) rest
+    { outs := outcome dec r.id b ++ t.outs, hdrs := hdr s :: t.hdrs, closed := t.closed }
+
+/-- the POSTs that completed before the connection was closed -/
+def beforeClose : List Ev â†’ List (Req Ã— Behaviour)
+  | [] => []
+  | .close :: _ => []
+  | .post r b :: rest => (r, b) :: beforeClose rest
+
+/-- the requests outstanding at close (in flight or still queued) -/
+def outstanding : List Ev â†’ List Req
+  | [] => []
+  | .close :: rest => rest.filterMap (fun e => match e with | .post r _ => some r | .close => none)
+  | .post _ _ :: rest => outstanding rest
+
 /-! ## Specification-side notions (independent of `internal`) -/
 
 /-- the JSON-RPC messages a response body contains, in order -/
